@@ -36,6 +36,7 @@ type Ext struct {
 	bltSym  map[string]*Symbol
 	paramRootStored map[*Symbol]bool
 	objAlias map[*Symbol]*Term
+	objAliasAt map[*Symbol]aliasSite // where (instance, block) the copy was made
 }
 
 func NewExt(p *Prog, s *Store, cfg Config) *Ext {
@@ -44,7 +45,7 @@ func NewExt(p *Prog, s *Store, cfg Config) *Ext {
 	}
 	return &Ext{S: s, P: p, Cfg: cfg, cfgs: map[*ssa.Function]*funcCFG{}, cellCur: map[*Symbol]*Term{},
 		objOf: map[ssa.Value]*Symbol{}, globSym: map[*ssa.Global]*Symbol{}, funcSym: map[*ssa.Function]*Symbol{},
-		bltSym: map[string]*Symbol{}, paramRootStored: map[*Symbol]bool{}, objAlias: map[*Symbol]*Term{}}
+		bltSym: map[string]*Symbol{}, paramRootStored: map[*Symbol]bool{}, objAlias: map[*Symbol]*Term{}, objAliasAt: map[*Symbol]aliasSite{}}
 }
 
 func (x *Ext) und(format string, a ...interface{}) {
@@ -100,6 +101,11 @@ func isAggregate(t types.Type) bool {
 }
 
 // Inst is one function instance (function + bound arguments) being walked.
+type aliasSite struct {
+	in *Inst
+	b  *ssa.BasicBlock
+}
+
 type Inst struct {
 	X      *Ext
 	Fn     *ssa.Function
@@ -116,6 +122,7 @@ type Inst struct {
 	rets    []*Event
 	sum     *Summary
 	curB    *ssa.BasicBlock
+	deferEvs []*Event // defer events of this (inlined) instance, replayed at its RunDefers
 	narrow  *Term // set by inline(): the condition under which the inlined callee returned (it may also panic)
 }
 
